@@ -40,6 +40,10 @@ REAL_TESTS = {
     "clim": ("qartod", "climatology_test",
              {"config": [{"tspan": [0, 13], "period": "month", "vspan": [1001, 1003], "fspan": [1000, 1005],
                           "zspan": [5001, 5004]}]}, ("time", "z")),
+    # (a member keyed on the hour of the day: sensitive to what clock the time input is read on)
+    "clim-hour": ("qartod", "climatology_test",
+                  {"config": [{"tspan": [0, 11], "period": "hour", "vspan": [1001, 1003], "fspan": [1000, 1005]},
+                              {"tspan": [12, 23], "period": "hour", "vspan": [1004, 1100]}]}, ("time", "z")),
     "dens": ("qartod", "density_inversion_test", {"suspect_threshold": 2, "fail_threshold": 0.5}, ("z",)),
     "loc": ("qartod", "location_test", {"bbox": [10.2, -60, 11.2, -58.4], "range_max": 58000}, ("pos",)),
     "speed": ("argo", "speed_test", {"suspect_threshold": 500, "fail_threshold": 950}, ("time", "pos")),
